@@ -226,7 +226,13 @@ def check(rep):
                 continue
             table_inconsistent.append({"rule": rule, "type": typ, "mass": a0._type_param[typ].mass})
     # ionic / small probes: whatever rule wins, the mass must be the element's
-    for smi in ["C[S-]", "C[O-]", "CC(=O)[O-]", "C[NH3+]", "CS", "CSC", "CCl", "CBr", "CF", "c1ccncc1", "CC#N", "CC(N)=O", "OC(=O)C", "C=C", "CS(C)=O"]:
+    # plus hetero-aromatic rings and functional groups for which several rules of different elements / environments compete
+    PROBES = ["C[S-]", "C[O-]", "CC(=O)[O-]", "C[NH3+]", "CS", "CSC", "CCl", "CBr", "CF", "c1ccncc1", "CC#N", "CC(N)=O", "OC(=O)C", "C=C", "CS(C)=O",
+              "Cc1cscn1", "c1ccsn1", "c1ccc2scnc2c1", "c1cocn1", "c1ccsc1", "c1ccoc1", "c1cnc[nH]1", "c1cc[nH]c1", "Cc1ccon1", "CS(C)(=O)=O", "CSSC", "CS(N)(=O)=O",
+              "C[N+](=O)[O-]", "CC(=O)OC", "CC(=O)N(C)C", "COC", "CC=O", "CN", "c1ccccc1O", "c1ccccc1N", "FC(F)(F)C", "ClC(Cl)Cl", "CC(C)=O", "C#C", "CN=C=O", "c1ccc2[nH]ccc2c1",
+              "CCC(C){[>][<]CC([>])c1cscn1[<]}|uniform(300, 500)|[H]"]
+    probe_lines, probe_expect = [], []
+    for smi in PROBES:
         try:
             mg = gbigsmiles.Molecule(smi).generate(rng=np.random.default_rng(1))
             d, mol = mg.forcefield_types
@@ -237,8 +243,27 @@ def check(rep):
             if a.GetIdx() in d and abs(d[a.GetIdx()].mass - pt.GetAtomicWeight(a.GetAtomicNum())) > 0.05:
                 rep.fail("oracle", f"{smi}: atom {a.GetIdx()} ({a.GetSymbol()}) got a parameter set of mass {d[a.GetIdx()].mass}", {"text": smi},
                          expected=pt.GetAtomicWeight(a.GetAtomicNum()), observed=d[a.GetIdx()].mass)
+        # the selection rule itself (longest rule text wins, first on ties: Model/FFSel.v) on the probe, RDKit's matches as oracle data
+        asg = ffh.get_assignment_class(None, None) if hasattr(ffh, "get_assignment_class") else a0
+        rl = list(asg._rule_dict)
+        types = sorted(set(asg._rule_dict.values()))
+        ms = []
+        for i, rule in enumerate(rl):
+            at = sorted({m[0] for m in mol.GetSubstructMatches(Chem.MolFromSmarts(rule))})
+            if at:
+                ms.append(f"{i}:" + ",".join(map(str, at)))
+        probe_lines.append("\t".join(["ffsel", ";".join(f"{i}:{len(r)}:{types.index(asg._rule_dict[r])}" for i, r in enumerate(rl)), ";".join(ms), str(mol.GetNumAtoms())]))
+        probe_expect.append((smi, [asg._rule_dict[r] for r in rl], d, asg))
+    for (smi, rtypes, d, asg), out in zip(probe_expect, fw.run_driver(probe_lines)):
+        if not out.startswith("OK "):
+            continue
+        for a, rid in enumerate(int(x) for x in out[3:].split(",")):
+            if a in d and asg.get_ffparam(asg.get_type(rtypes[rid])) != d[a]:
+                rep.fail("correspondence", f"selection layer on {smi}: atom {a}: the selection rule of the model picks {rtypes[rid]}, the implementation assigned another parameter set", {"text": smi},
+                         expected=rtypes[rid], observed=str(d[a]))
+                break
     rep.coverage.update({"evaluations": evaluations, "distinct_nontrivial": len(distinct), "request_histories": len(histories), "histories_exhaustive_up_to_length": 2,
-                         "molecules_typed": typed, "selection_cases_vs_model": len(lines), "rules_element_checked": len(a0._rule_dict) - unparsed, "rules_head_unparsed": unparsed,
+                         "molecules_typed": typed, "selection_cases_vs_model": len(lines) + len(probe_lines), "probe_molecules": len(PROBES), "rules_element_checked": len(a0._rule_dict) - unparsed, "rules_head_unparsed": unparsed,
                          "table_rules_with_foreign_element_type_informational": table_inconsistent,
                          "rule": "request histories over 3 rule files x 3 parameter files (defaults and two modified copies each): all of length 1 and 2, random ones of "
                                  "length 3-5; generated molecules of typable chemistry x random renumberings; distinct_nontrivial = distinct histories of length >= 2 plus typed molecules",
